@@ -87,6 +87,9 @@ def run(ctx):
     jobs["behB"] = lambda: beh(ctx, SPEC_B, "MC_Changes", "Beh_Changes.cfg", "behB")        # every 2-write history of one document
     # ... and every 3-write history of one document over put {A} / put {A,B} / delete (create, move, delete, resurrect)
     jobs["behB3"] = lambda: beh(ctx, SPEC_B, "MC_Changes", "Beh_Changes3.cfg", "behB3")
+    # ... and every put followed by a put / delete / coalesced pair of updates (the first mutation of the pair never reaches the
+    # change cache: feed de-duplication; the cache learns that sequence from recent_sequences)
+    jobs["behBC"] = lambda: beh(ctx, SPEC_B, "MC_Changes", "Beh_ChangesCoal.cfg", "behBC")
     jobs["simB"] = lambda: beh(ctx, SPEC_B, "MC_Changes", "Sim_Changes.cfg", "simB", num=10 if q else 200, depth=10)
     res = parallel(jobs)
     a = gen_a(ctx, res["behA1"] + res.get("behA2", []) + res["simA"])
@@ -96,11 +99,11 @@ def run(ctx):
     rbf, rtr = os.path.join(ctx.scratch, "c01r-beh.json"), os.path.join(ctx.scratch, "c01r.ndjson")
     write_json(rbf, behr)
     renv = {"VERIF_BEH_R": rbf, "VERIF_TRACE_OUT_R": rtr}
-    b = gen_b(ctx, res["behB"] + res["behB3"], res["simB"])
+    b = gen_b(ctx, res["behB"] + res["behB3"] + res["behBC"], res["simB"])
     # one go test invocation (one link of the db test binary) runs both harnesses
     ctr = os.path.join(ctx.scratch, "c01c.ndjson")
     cenv = {"VERIF_TRACE_OUT_C": ctr, "VERIF_C01_CONT_ROUNDS": 2 if ctx.quick() else 8,
-            "VERIF_C01_LATE_ROUNDS": 1 if ctx.quick() else 4, "VERIF_C01_LATE_GROUPS": 3 if ctx.quick() else 6}
+            "VERIF_C01_LATE_ROUNDS": 1 if ctx.quick() else 4, "VERIF_C01_ROLE_ROUNDS": 1 if ctx.quick() else 3, "VERIF_C01_LATE_GROUPS": 3 if ctx.quick() else 6}
     rc, out = go_test(ctx, "db", "^TestVerif_C01_(ChannelCache|PurgeRace|Changes|Continuous)$", HARNESS, env=dict(a["env"], **b["env"], **cenv, **renv),
                       timeout=1800 if ctx.quick() else 7200)
     if rc != 0 or not os.path.exists(a["tr"]) or not os.path.exists(b["tr"]) or not os.path.exists(ctr) or not os.path.exists(rtr):
@@ -366,8 +369,9 @@ def check_c(ctx, tr, cenv, vfirst):
     def report(rows_, v, twice):
         line = max(1, (v.line or 2) - 1)
         fail = rows_[line - 1]
-        key = "c:%s:%s:%s:%s" % (fail["a"], v.inv, fail.get("u"), json.dumps(fail.get("req")))
-        what = "racing with writers" if fail["a"] == "Cont" else "over late-arriving sequences"
+        scen = fail.get("scenario") or ("racing with writers" if fail["a"] == "Cont" else "over late-arriving sequences")
+        key = "c:%s:%s:%s:%s:%s" % (fail["a"], v.inv, scen, fail.get("u"), json.dumps(fail.get("req")))
+        what = ("(" + scen + ")") if fail.get("scenario") else scen
         report_violation(ctx, key, "continuous feed of %s on %s %s: %s%s" % (fail.get("u"), fail.get("req"), what, v.inv, " (in two independent runs)" if twice else ""),
                          {"part": "Continuous", "invariant": v.inv, "feed": {"u": fail.get("u"), "req": fail.get("req")},
                           "admin_view": last_view2(rows_, line), "delivered": trim(fail)})
@@ -403,6 +407,7 @@ def part_c(ctx):
     ctx.cov["states"] += r.distinct
     ctx.cov["transitions"] += r.generated
     log("  TLC %-28s %-22s %9d distinct %10d generated (safety + liveness under fairness)  %.1fs" % ("MC_Listener", "MC_Listener.cfg", r.distinct, r.generated, r.wall))
-    ctx.notes.append("Listener: liveness (every notification of a watched key is eventually seen by the waiter) checked by TLC on the model under weak fairness "
+    ctx.notes.append("Listener: liveness (every notification of a watched channel key is eventually seen; every change of the user document or of a role the user "
+                     "currently holds eventually makes the waiter reload the user, also after a role swap) checked by TLC on the model under weak fairness "
                      "of the broadcast tick and the waiter; on the real code: continuous feeds racing with writers must deliver every final revision "
                      "(TLC predicate REventually on the recorded rows, a miss must reproduce in a second run)")
